@@ -230,21 +230,75 @@ Qed.
 Lemma like_contains q a b : ~ In 37 q -> like (wrap_pct q) (a ++ q ++ b) = true.
 Proof. intros H. unfold wrap_pct. apply like_leading_pct. apply like_prefix. exact H. Qed.
 
-Lemma children_sound q bt db r :
-  In r (gff_children q bt db) ->
+Lemma children_sound strict q bt db r :
+  In r (gff_children strict q bt db) ->
   In r db /\ exists p, row_parent r = Some p /\ like (wrap_pct q) p = true.
 Proof.
   unfold gff_children. rewrite filter_In. intros [Hin H]. split; [exact Hin|].
   destruct (row_parent r) as [p|]; [|discriminate]. exists p. split; [reflexivity|].
-  apply andb_true_iff in H. tauto.
+  apply andb_true_iff in H. destruct H as [H _]. apply andb_true_iff in H. tauto.
 Qed.
 
-(** every stored record whose Parent= text holds [q] is among the children of [q] *)
+(** every stored record whose Parent= text holds [q] is among the children of [q] (LIKE rule) *)
 Lemma children_complete q db r a b :
-  In r db -> row_parent r = Some (a ++ q ++ b) -> ~ In 37 q -> In r (gff_children q None db).
+  In r db -> row_parent r = Some (a ++ q ++ b) -> ~ In 37 q -> In r (gff_children false q None db).
 Proof.
   intros Hin Hp Hq. unfold gff_children. rewrite filter_In. split; [exact Hin|].
   rewrite Hp, like_contains by exact Hq. reflexivity.
+Qed.
+
+Lemma split_on_head d s : exists p ps b, split_on d s = p :: ps /\ s = p ++ b.
+Proof.
+  induction s as [|c t IH]; cbn [split_on].
+  - exists [], [], []. split; reflexivity.
+  - destruct (c =? d).
+    + exists [], (split_on d t), (c :: t). split; reflexivity.
+    + destruct IH as [p [ps [b [E Et]]]]. rewrite E. exists (c :: p), ps, b. split; [reflexivity|]. cbn [app]. congruence.
+Qed.
+
+Lemma split_on_in d s : forall q, In q (split_on d s) -> exists a b, s = a ++ q ++ b.
+Proof.
+  induction s as [|c t IH]; cbn [split_on]; intros q H.
+  - destruct H as [<-|[]]. exists [], []. reflexivity.
+  - destruct (c =? d).
+    + destruct H as [<-|H].
+      * exists [], (c :: t). reflexivity.
+      * destruct (IH q H) as [a [b E]]. exists (c :: a), b. cbn [app]. congruence.
+    + destruct (split_on_head d t) as [p [ps [b [E Et]]]]. rewrite E in H, IH.
+      destruct H as [<-|H].
+      * exists [], b. cbn [app]. congruence.
+      * destruct (IH q (or_intror H)) as [a [b' E']]. exists (c :: a), b'. cbn [app]. congruence.
+Qed.
+
+Lemma has_pct_false q : has_pct q = false -> ~ In 37 q.
+Proof.
+  unfold has_pct. intros H Hin.
+  assert (existsb (fun c => c =? 37) q = true); [|congruence].
+  apply existsb_exists. exists 37. split; [exact Hin|reflexivity].
+Qed.
+
+Lemma existsb_str_eqb_In q l : existsb (str_eqb q) l = true <-> In q l.
+Proof.
+  rewrite existsb_exists. split.
+  - intros [x [Hx E]]. apply Proofs.AnnotDbGffProofs.str_eqb_true in E. subst. exact Hx.
+  - intros H. exists q. split; [exact H|]. apply Proofs.AnnotDbGffProofs.str_eqb_true. reflexivity.
+Qed.
+
+(** the strict rule: the children of [q] are exactly the stored records that
+    name [q] in their Parent= list *)
+Lemma children_strict_iff q db r :
+  has_pct q = false ->
+  (In r (gff_children true q None db) <->
+   In r db /\ exists p, row_parent r = Some p /\ In q (parent_names p)).
+Proof.
+  intros Hq. unfold gff_children, parent_names. rewrite filter_In. rewrite Hq. cbn [negb andb].
+  split.
+  - intros [Hin H]. split; [exact Hin|]. destruct (row_parent r) as [p|]; [|discriminate].
+    exists p. split; [reflexivity|]. rewrite andb_true_r in H. apply andb_true_iff in H. destruct H as [_ H].
+    apply existsb_str_eqb_In. exact H.
+  - intros [Hin [p [Hp Hm]]]. split; [exact Hin|]. rewrite Hp, andb_true_r. apply andb_true_iff. split.
+    + destruct (split_on_in 44 p q Hm) as [a [b ->]]. apply like_contains. apply has_pct_false. exact Hq.
+    + apply existsb_str_eqb_In. exact Hm.
 Qed.
 
 (** the parents returned are stored records whose name is one of the names in the
